@@ -579,10 +579,26 @@ class SymEval:
         elif isinstance(t, ast.Starred):
             self.assign_target(t.value, S.unknown("starred"))
 
+    @staticmethod
+    def _basic_index(sl):
+        """slices, Ellipsis and None only: indexing an array this way gives a view"""
+        items = sl.elts if isinstance(sl, ast.Tuple) else [sl]
+        return bool(items) and all(isinstance(i, ast.Slice) or (isinstance(i, ast.Constant) and (i.value is Ellipsis or i.value is None)) for i in items) \
+            and (isinstance(sl, ast.Tuple) or isinstance(sl, ast.Slice))
+
     def s_Assign(self, st):
         v = self.expr(st.value)
+        views = self.__dict__.setdefault("_views", {})
         for t in st.targets:
+            for nm in [x.id for x in ast.walk(t) if isinstance(x, ast.Name) and isinstance(x.ctx, ast.Store)]:
+                # a re-bound name is no longer a view, and views of it are views of the old object
+                views.pop(nm, None)
+                for k_ in [k_ for k_, (b_, _) in views.items() if b_ == nm]:
+                    views.pop(k_, None)
             self.assign_target(t, v)
+        if (len(st.targets) == 1 and isinstance(st.targets[0], ast.Name) and isinstance(st.value, ast.Subscript) and isinstance(st.value.value, ast.Name)
+                and self._basic_index(st.value.slice) and st.targets[0].id != st.value.value.id):
+            views[st.targets[0].id] = (st.value.value.id, st.value.slice)
 
     def s_AnnAssign(self, st):
         if st.value is not None:
@@ -602,6 +618,18 @@ class SymEval:
                 except Exception:
                     val = S.unknown("aug")
                 self.assign_target(st.target, val)
+            return
+        views = self.__dict__.get("_views", {})
+        if isinstance(st.target, ast.Name) and st.target.id in views and (isinstance(views[st.target.id][1], ast.Tuple) or not isinstance(st.op, ast.Add)):
+            # t = x[..., 1:] ; t -= v   updates x through the view (arrays; a tuple index or a non-additive operator rules out lists)
+            base, sl = views[st.target.id]
+            sub = ast.Subscript(value=ast.Name(id=base, ctx=ast.Load()), slice=sl, ctx=ast.Store())
+            aug = ast.copy_location(ast.AugAssign(target=ast.copy_location(sub, st), op=st.op, value=st.value), st)
+            ast.fix_missing_locations(aug)
+            keep = dict(views)
+            self.s_AugAssign(aug)
+            self.__dict__["_views"] = keep
+            self.env[st.target.id] = self.expr(ast.Subscript(value=ast.Name(id=base, ctx=ast.Load()), slice=sl, ctx=ast.Load()))
             return
         cur = self.expr(_load(st.target))
         v = self.binop(st.op, cur, self.expr(st.value))
@@ -627,6 +655,14 @@ class SymEval:
             elif self._calls_new_helper(st.value):
                 # a bare call to a helper the reference tree does not have: its raises and attribute updates are the caller's
                 self.expr(st.value)
+            # torch's in-place methods (trailing underscore) on a name: x.square_() is x = x.square()
+            f0 = st.value.func
+            if (isinstance(f0, ast.Attribute) and isinstance(f0.value, ast.Name) and f0.attr.endswith("_") and not f0.attr.startswith("_") and len(f0.attr) > 2
+                    and f0.value.id in self.env and not st.value.keywords):
+                try:
+                    self.env[f0.value.id] = S.call("." + f0.attr[:-1], self.env[f0.value.id], *[self.expr(a) for a in st.value.args])
+                except Exception:
+                    pass
             # mutating method calls on tracked containers
             f = st.value.func
             if isinstance(f, ast.Attribute) and f.attr in ("append", "extend", "fill", "pop", "update", "sort", "insert"):
